@@ -26,6 +26,7 @@ def run(rep, prog, tier):
     rep.rule('C20.4', 'only the last-yielded one-pass packet is flagged', floor=2)
     rep.rule('C20.5', 'compression wraps everything; CompressedData import restores the setting', floor=5)
     rep.rule('C20.6', 'literal / one-pass / compressed layouts and PGPMessage.new wiring', floor=9)
+    rep.rule('C20.8', 'messages the library itself copies keep their packets whole (packet-level __copy__ carries header and every serialised field)', floor=1)
     rep.rule('C20.7', 'packet length encodings: every encoding of a length (1/2/5 octets, partial chains) reads back to the same body', floor=5)
     rep.assume('SorteDeque iteration order is the order of the trailing signatures; reversed() is its exact reverse (ties included)')
 
@@ -243,6 +244,8 @@ def run(rep, prog, tier):
                   'LiteralData filename codec', 'writer %s reader %s' % (wc, rc),
                   'the file name must be written with the codec it is read with', where=lit.where)
     literal_time(rep, prog, lit)
+    literal_text(rep, prog, lit)
+    message_copies(rep, prog, M)
     nw = M.methods['new']
     for sens, fn in ((True, "'_CONSOLE'"), (False, "os.path.basename('')")):
         kw = nw.node.args.kwarg.arg if nw.node.args.kwarg else 'kwargs'
@@ -662,3 +665,69 @@ def length_codec(rep, prog):
     C09.widths(P, prog, H, B)
     C09.tagoctet(P, prog, B)
     C09.partial(P, prog, B)
+
+
+# ------------------------------------------------------------------------------------------------ literal text codec
+def _codec_name(t):
+    return (t or 'utf-8').strip("'\"").lower().replace('_', '-').replace('utf8', 'utf-8')
+
+
+def literal_text(rep, prog, lit):
+    """C20.6: the text of a literal packet is the same characters on both sides: format 'u' is read with exactly the codec the
+    message text is written with (utf-8, no byte-order-mark handling), format 't' with latin-1, format 'b' is the octets."""
+    pp = lit.find_plain_prop('contents')
+    g = pp.get('get') if pp else None
+    if g is None:
+        raise AnalysisError('LiteralData.contents vanished')
+    me = g.params[0]
+    ttb = prog.method('pgpy.types', 'PGPObject', 'text_to_bytes')
+    wcodec = set()
+    for s in Interp(prog, Scenario(inline=noinline, args={ttb.params[-1]: Sym(ttb.params[-1], types={'str'}, nonnull=True)})).run(ttb):
+        m = re.match(r"^%s\.encode\((?:'([^']*)')?\)$" % re.escape(ttb.params[-1]), render(s.ret))
+        wcodec.add(_codec_name(m.group(1)) if m else render(s.ret))
+    want = {'t': 'latin-1', 'u': 'utf-8'}
+    for fmt in ('t', 'u', 'b'):
+        outs = Interp(prog, Scenario(inline=noinline, bind={'%s.format' % me: Const(fmt)})).run(g)
+        rets = sorted({render(s.ret) for s in outs if s.raised is None})
+        if fmt == 'b':
+            rep.check(rets == ['%s._contents' % me], 'C20.6', 'LiteralData.contents', 'binary: %s' % rets, 'binary contents are the octets themselves', where=g.where)
+            continue
+        m = re.match(r"^%s\._contents\.decode\((?:'([^']*)')?(?:, '[^']*')?\)$" % re.escape(me), rets[0]) if len(rets) == 1 else None
+        rc = _codec_name(m.group(1)) if m else None
+        ok = rc == want[fmt] and (fmt != 'u' or wcodec == {'utf-8'})
+        rep.check(ok, 'C20.6', 'LiteralData.contents', "format %r read with %s (text written with %s)" % (fmt, rc or rets, sorted(wcodec)),
+                  'literal text is read with exactly the codec it is written with (utf-8 for unicode text: a codec that strips or adds a byte '
+                  'order mark changes the content), latin-1 for format t', where=g.where, expected=want[fmt], found=rc or rets)
+
+
+# ------------------------------------------------------------------------------------------------ copies of message packets
+MESSAGE_PACKETS = ('LiteralData', 'SKEData', 'IntegrityProtectedSKEDataV1', 'PKESessionKeyV3', 'SKESessionKeyV4')
+
+
+def message_copies(rep, prog, M):
+    """C20.8: when an operation of the library itself works on copy.copy(<message>) (instead of the caller's object), what it
+    returns / exports is built from the packet-level copies: every packet class a message holds must then copy whole - header
+    and every field its writer emits.  The operand is recognised as a message by the members it is used through."""
+    own = {n for n in list(M.methods) + list(M.props) + list(M.plain_props)} - {'__init__', '__copy__', '__or__', '__bytearray__', '__str__', '__iter__', 'parse'}
+    others = set()
+    for cn in ('PGPKey', 'PGPSignature', 'PGPUID'):
+        c = prog.cls('pgpy.pgp', cn)
+        others |= set(c.methods) | set(c.props) | set(c.plain_props)
+    only_message = own - others
+    sites = []
+    for fn in prog.all_functions():
+        if fn.name in ('__copy__', '__deepcopy__') or not fn.module.name.startswith('pgpy'):
+            continue
+        for n in ast.walk(fn.node):
+            if isinstance(n, ast.Call) and dotted(n.func) in ('copy.copy', 'copy.deepcopy') and n.args and isinstance(n.args[0], ast.Name):
+                name = n.args[0].id
+                used = {x.attr for x in ast.walk(fn.node) if isinstance(x, ast.Attribute) and isinstance(x.value, ast.Name) and x.value.id == name}
+                if used & only_message:
+                    sites.append((fn, n, sorted(used & only_message)))
+    if not sites:
+        rep.ok('C20.8', 'message copies', 'no operation of the library works on a copy of a message (packet-level copies are reached only through an explicit copy.copy by the caller)')
+        return
+    for fn, n, used in sites:
+        rep.saw(fn=fn)
+    from rules import C14
+    C14.packet_copies(_Relabel(rep, 'C20.8'), prog, 'C20.8', MESSAGE_PACKETS)
